@@ -404,8 +404,16 @@ impl<'a> ParserState<'a> {
     /// - the function shouldn't be called while pos == 0, but this case would behave like pos==1
     pub(crate) fn get_line_offset(&self) -> u32 {
         if self.token_cursor.pos > 1 && self.token_cursor.pos < self.token_cursor.tokens.len() {
-            let prev_line = self.token_cursor.tokens[self.token_cursor.pos - 2].line;
-            let prev_fileid = self.token_cursor.tokens[self.token_cursor.pos - 2].fileid;
+            let prev_token = &self.token_cursor.tokens[self.token_cursor.pos - 2];
+            // a block comment records the line on which it starts; the line breaks inside the comment are
+            // written as part of the comment text and must not be counted again in the offset of the next token
+            let prev_line = if prev_token.ttype == A2lTokenType::Comment {
+                prev_token.line
+                    + crate::tokenizer::count_newlines(self.get_token_text(prev_token).as_bytes())
+            } else {
+                prev_token.line
+            };
+            let prev_fileid = prev_token.fileid;
             let cur_line = self.token_cursor.tokens[self.token_cursor.pos - 1].line;
             let cur_fileid = self.token_cursor.tokens[self.token_cursor.pos - 1].fileid;
 
